@@ -241,6 +241,22 @@ pub fn hash_colliders(n: usize) -> Vec<String> {
     }
 }
 
+/// `n` names "hcolli-<k>.txt" whose 16-bit hash is exactly `h` (the boundary values of the hash range: the alias
+/// generator increments the hash after every nine collisions and has to wrap around)
+pub fn hash_colliders_at(h: u16, n: usize) -> Vec<String> {
+    let mut v = Vec::new();
+    for i in 0..40_000_000u32 {
+        let name = format!("hcolli-{:07}.txt", i);
+        if bsd16(&name) == h {
+            v.push(name);
+            if v.len() >= n {
+                break;
+            }
+        }
+    }
+    v
+}
+
 pub fn run(tier: &str) -> i32 {
     let th = is_thorough(tier);
     let t0 = Instant::now();
@@ -267,6 +283,9 @@ pub fn run(tier: &str) -> i32 {
     let pops: Vec<(&str, Vec<String>)> = vec![
         ("six-char-prefix", (0..n).map(|i| format!("collide-{i}.txt")).collect()),
         ("prefix-and-hash-collide", hash_colliders(n.min(if th { 60 } else { 24 }))),
+        ("prefix-collides-hash-ffff", hash_colliders_at(0xFFFF, n.min(if th { 60 } else { 24 }))),
+        ("prefix-collides-hash-fffe", hash_colliders_at(0xFFFE, n.min(if th { 60 } else { 34 }))),
+        ("prefix-collides-hash-0000", hash_colliders_at(0x0000, n.min(if th { 60 } else { 24 }))),
         ("alias-shaped-long-names", (1..=n).map(|i| format!("COLLID~{i}.TXT")).collect()),
         ("alias-shaped-then-colliding", (1..=9).map(|i| format!("COLLID~{i}.TXT")).chain((0..n).map(|i| format!("collide-{i}.txt"))).collect()),
         ("non-ascii-prefix", (0..n).map(|i| format!("ééééééé-{i}.tx")).collect()),
@@ -304,7 +323,7 @@ pub fn run(tier: &str) -> i32 {
     rep.coverage = json!({
         "evaluations": evals.load(Ordering::Relaxed),
         "distinct_nontrivial": jobs.len(),
-        "rule": "all 4680 names over {a,B,.,space,+,é,~,1} of length 1..=4, each alone and (thorough: all; quick: every third) one after another in one cluster-chained directory with removals; collision populations of N names (6-character prefix, 2-character prefix + identical 16-bit hash, alias-shaped long names, non-ASCII prefix, dots/spaces) in the fixed root and in a subdirectory, with and without interleaved removals; after every batch every short-name slot is examined in the raw image by the independent decoder; distinct_nontrivial = number of distinct populations/jobs",
+        "rule": "all 4680 names over {a,B,.,space,+,é,~,1} of length 1..=4, each alone and (thorough: all; quick: every third) one after another in one cluster-chained directory with removals; collision populations of N names (6-character prefix, 2-character prefix + identical 16-bit hash (an arbitrary value and the boundary values 0xFFFF, 0xFFFE, 0x0000 of the hash range), alias-shaped long names, non-ASCII prefix, dots/spaces) in the fixed root and in a subdirectory, with and without interleaved removals; after every batch every short-name slot is examined in the raw image by the independent decoder; distinct_nontrivial = number of distinct populations/jobs",
         "samples": [{"population": "six-char-prefix", "first": "collide-0.txt", "n": n}, {"population": "two-char-prefix-and-hash", "names": hash_colliders(3)}],
         "exhaustive": ncap == 0,
         "jobs_skipped_by_deadline": ncap,
